@@ -57,7 +57,7 @@ func vkC06Reply(cs vkSrvCase, path vkPath, raw []byte, decodable bool, r vkResul
 	if len(r.replies) > 1 {
 		return fmt.Sprintf("%d replies to one query", len(r.replies)), ""
 	}
-	doh := path == vkPathDoHPost || path == vkPathDoHGet
+	doh := path == vkPathDoHPost || path == vkPathDoHGet || path == vkPath("doq") // neither a datagram nor a stream listener
 	if p.QR && !doh { // (the "responses are never answered" clause names the datagram and stream listeners)
 		if len(r.replies) != 0 {
 			return "a packet that is itself a response (QR=1) was answered", ""
@@ -67,7 +67,7 @@ func vkC06Reply(cs vkSrvCase, path vkPath, raw []byte, decodable bool, r vkResul
 	if len(r.replies) == 0 {
 		// silence is only REQUIRED for responses; for everything else the statement demands specific rcodes
 		switch {
-		case path == vkPathDoHPost || path == vkPathDoHGet:
+		case path == vkPathDoHPost || path == vkPathDoHGet || path == vkPath("doq"):
 			// an HTTP error status (no DNS reply) — the FORMERR/NOTIMP clause names the datagram and stream listeners
 		case p.Opcode != 0 && path != vkPathServeMsg:
 			return fmt.Sprintf("opcode %d query got no reply (NOTIMP required)", p.Opcode), ""
@@ -91,8 +91,12 @@ func vkC06Reply(cs vkSrvCase, path vkPath, raw []byte, decodable bool, r vkResul
 	if !m.Response {
 		return "reply without QR: " + m.String(), ""
 	}
-	if m.Id != p.ID {
-		return fmt.Sprintf("reply ID %d != query ID %d", m.Id, p.ID), ""
+	wantID := p.ID
+	if cs.Proto == "doq" {
+		wantID = 0 // RFC 9250 4.2.1: the Message ID is 0 over DoQ
+	}
+	if m.Id != wantID {
+		return fmt.Sprintf("reply ID %d != %d (query ID %d, transport %s)", m.Id, wantID, p.ID, cs.Proto), ""
 	}
 	if m.Opcode != p.Opcode {
 		return fmt.Sprintf("reply opcode %d != query opcode %d", m.Opcode, p.Opcode), ""
